@@ -131,10 +131,28 @@ func carriedCheckedRule(P *Program, R *Report) {
 		return
 	}
 	idx := "makeslice[#i]"
-	inner := loopOver(fn, is(pdRP+"["+idx+"]"))
+	// the loop over the proofs of one index: in ChallengeContribution itself or in a helper the outer loop's body
+	// was extracted into (examined with its parameters bound to the call's arguments)
+	var inner *Loop
+	innerFn := fn
+	deepVisit(P, fn, 2, func(g *ssa.Function) {
+		if inner == nil {
+			if l := loopOver(g, is(pdRP+"["+idx+"]")); l != nil {
+				inner, innerFn = l, g
+			}
+		}
+	})
 	if inner == nil {
 		R.bad(rule, kProofDCC+":inner-loop", "for every index a loop over all its range proofs exists", "no loop over RangeProofs[index]", P.Pos(fn.Pos()))
 		return
+	}
+	innerAcc := acc
+	if innerFn != fn {
+		var okAcc bool
+		if innerAcc, okAcc = accOfFn(innerFn, Nil); !okAcc {
+			R.bad(rule, kProofDCC+":inner-loop", "for every index a loop over all its range proofs exists", "the helper "+FuncKey(innerFn)+" cannot report failure", P.Pos(innerFn.Pos()))
+			return
+		}
 	}
 	// (2) per index
 	chk := func(name, what string, q *MustPass) {
@@ -161,7 +179,14 @@ func carriedCheckedRule(P *Program, R *Report) {
 		c, ok := callAtom(a, True, kRPVerify)
 		return ok && desc(c.Call.Args[0]) == str && desc(c.Call.Args[1]) == pkD && desc(c.Call.Args[2]) == proof
 	}}
-	r1 := q1.ForAllBody(fn, inner, acc, false)
+	if innerFn != fn {
+		chk("helper-succeeded", "for every index the helper holding the per-proof loop returned without error", &MustPass{NoInterproc: true, Match: func(a Atom) bool {
+			c, _ := callAndResult(a.V)
+			return c != nil && staticCallee(c) == innerFn && a.Want == Nil
+		}})
+	}
+	var r1, r2 mpResult
+	bindPath(fn, innerFn, 2, func() { r1 = q1.ForAllBody(innerFn, inner, innerAcc, false) })
 	R.decide(rule, kProofDCC+":each-verified", "for every proof: VerifyProofStructure(pk, proof) of its own structure returned true", r1.Holds, r1.Path, P.Pos(fn.Pos()))
 	q2 := &MustPass{P: P, Instr: func(f *ssa.Function, i ssa.Instruction) bool {
 		c, ok := i.(*ssa.Call)
@@ -171,7 +196,7 @@ func carriedCheckedRule(P *Program, R *Report) {
 		d := desc(c.Call.Args[1])
 		return strings.HasPrefix(d, "call:"+kRPCFP+"("+str+","+pkD+","+proof+",<gabi.ProofD>.C)")
 	}}
-	r2 := q2.ForAllBody(fn, inner, acc, false)
+	bindPath(fn, innerFn, 2, func() { r2 = q2.ForAllBody(innerFn, inner, innerAcc, false) })
 	R.decide(rule, kProofDCC+":each-contributes", "for every proof: CommitmentsFromProof(pk, proof, p.C) is appended to the contribution", r2.Holds, r2.Path, P.Pos(fn.Pos()))
 	// (4) structures are extracted for the index they are filed under
 	if rf := mustFunc(P, R, rule, kReconRP); rf != nil {
@@ -206,21 +231,23 @@ func bindingRule(P *Program, R *Report) {
 	}
 	idx := "makeslice[#i]"
 	var ver, cfp *ssa.Call
-	for _, c := range callsIn(fn) {
-		if isCallTo(c, kRPVerify) {
-			ver = c.(*ssa.Call)
+	deepVisit(P, fn, 2, func(g *ssa.Function) {
+		for _, c := range callsIn(g) {
+			if isCallTo(c, kRPVerify) {
+				ver, _ = c.(*ssa.Call)
+			}
+			if isCallTo(c, kRPCFP) {
+				cfp, _ = c.(*ssa.Call)
+			}
 		}
-		if isCallTo(c, kRPCFP) {
-			cfp = c.(*ssa.Call)
-		}
-	}
+	})
 	if ver == nil || cfp == nil {
 		R.bad(rule, kProofDCC+":calls", "structure check and contribution calls exist", "missing", P.Pos(fn.Pos()))
 		return
 	}
-	be := P.bigEval(fn)
 	want := tsym("<gabi.ProofD>.AResponses[" + idx + "]")
 	assign := func(f *ssa.Function, i ssa.Instruction) bool {
+		be := P.bigEval(i.Parent())
 		st, ok := i.(*ssa.Store)
 		if !ok || !strings.HasSuffix(desc(st.Addr), ".MResponse") {
 			return false
@@ -233,7 +260,10 @@ func bindingRule(P *Program, R *Report) {
 		return fresh && t.equal(want)
 	}
 	for _, c := range []*ssa.Call{ver, cfp} {
-		r := (&MustPass{P: P, Instr: assign}).MustReach(fn, c)
+		var r mpResult
+		if !bindPath(fn, c.Parent(), 2, func() { r = (&MustPass{P: P, Instr: assign}).MustReach(c.Parent(), c) }) {
+			r = mpResult{Path: "the call is not reached from ChallengeContribution by static calls"}
+		}
 		R.decide(rule, kProofDCC+":MResponse-before:"+calleeName(c), "MResponse of the proof is a fresh copy of AResponses[its index] before this call", r.Holds, r.Path, P.Pos(c.Pos()))
 	}
 	// the structure's base name uses the same index
@@ -528,11 +558,10 @@ func provesStatementRule(P *Program, R *Report) {
 	mp(P, R, rule, kProves+":sign-equal", "true => the proof's Sign equals the queried sign", fn, acc, &MustPass{Match: intEq(rpP+".Sign", "arg#1")})
 	// factor: p.A == factor' where factor' is arg#2 or 4*arg#2 depending on len(Cs)==3
 	mp(P, R, rule, kProves+":factor-equal", "true => the proof's A equals the (rescaled) queried factor", fn, acc, &MustPass{Match: func(a Atom) bool {
-		bo, ok := a.V.(*ssa.BinOp)
-		if !ok || bo.Op != token.EQL || a.Want != True {
+		x, y, ok := rawEq(a)
+		if !ok {
 			return false
 		}
-		x, y := bo.X, bo.Y
 		if desc(y) == rpP+".A" {
 			x, y = y, x
 		}
@@ -544,36 +573,54 @@ func provesStatementRule(P *Program, R *Report) {
 	}})
 	// K vs bound'
 	mp(P, R, rule, kProves+":bound", "true => K equals the (rescaled) bound, or compares to it in the direction of the sign", fn, acc, &MustPass{Match: func(a Atom) bool {
-		bo, ok := a.V.(*ssa.BinOp)
-		if !ok || bo.Op != token.EQL || a.Want != True {
+		bx, by, ok := rawEq(a)
+		if !ok {
 			return false
 		}
-		c, ok := bo.X.(*ssa.Call)
+		if _, isCall := by.(*ssa.Call); isCall {
+			bx, by = by, bx
+		}
+		c, ok := bx.(*ssa.Call)
 		if !ok || bigMethod(c) != "Cmp" || desc(c.Call.Args[0]) != rpP+".K" {
 			return false
 		}
-		lv := phiLeaves(c.Call.Args[1])
+		lv := phiLeavesNN(c.Call.Args[1])
 		if !(len(lv) == 2 && lv["arg#3"] && lv["new:big.Int"]) {
 			return false
 		}
-		d := desc(bo.Y)
+		d := desc(by)
 		return d == "0" || d == "arg#1"
 	}})
+}
+
+// rawEq: the atom states x == y on plain values (`x == y` held, or `x != y` did not).
+func rawEq(a Atom) (x, y ssa.Value, ok bool) {
+	a = normAtom(a)
+	bo, isB := a.V.(*ssa.BinOp)
+	if !isB {
+		return nil, nil, false
+	}
+	if (bo.Op == token.EQL && a.Want == True) || (bo.Op == token.NEQ && a.Want == False) {
+		return bo.X, bo.Y, true
+	}
+	return nil, nil, false
 }
 
 func rescalingRule(P *Program, R *Report, rule string) {
 	// NewProofStructure: factor*4, bound*4-2 under SquareCount()==3
 	if fn := mustFunc(P, R, rule, kNewPS); fn != nil {
-		be := P.bigEval(fn)
 		okB := false
 		got := ""
-		allInstrs(fn, func(i ssa.Instruction) {
-			if c, ok := i.(*ssa.Call); ok && bigMethod(c) == "Sub" {
-				if t, ok := be.Ret[c]; ok {
-					got = t.String()
-					okB = t.equal(tsub(tmul(tconst(4), tsym("arg#3")), tconst(2)))
+		deepVisit(P, fn, 2, func(g *ssa.Function) {
+			be := P.bigEval(g)
+			allInstrs(g, func(i ssa.Instruction) {
+				if c, ok := i.(*ssa.Call); ok && bigMethod(c) == "Sub" {
+					if t, ok := be.Ret[c]; ok {
+						got = t.String()
+						okB = t.equal(tsub(tmul(tconst(4), tsym("arg#3")), tconst(2)))
+					}
 				}
-			}
+			})
 		})
 		R.decide(rule, kNewPS+":bound", "three squares: bound' = 4*bound - 2", okB, "got "+got, P.Pos(fn.Pos()))
 		okF := false
@@ -594,26 +641,28 @@ func rescalingRule(P *Program, R *Report, rule string) {
 			}})
 	}
 	if fn := mustFunc(P, R, rule, kProves); fn != nil {
-		be := P.bigEval(fn)
 		okB := false
 		got := ""
 		var mul *ssa.BinOp
-		allInstrs(fn, func(i ssa.Instruction) {
-			if c, ok := i.(*ssa.Call); ok && bigMethod(c) == "Sub" {
-				if t, ok := be.Ret[c]; ok {
-					got = t.String()
-					okB = t.equal(tsub(tmul(tconst(4), tsym("arg#3")), tconst(2)))
+		deepVisit(P, fn, 2, func(g *ssa.Function) {
+			be := P.bigEval(g)
+			allInstrs(g, func(i ssa.Instruction) {
+				if c, ok := i.(*ssa.Call); ok && bigMethod(c) == "Sub" {
+					if t, ok := be.Ret[c]; ok {
+						got = t.String()
+						okB = t.equal(tsub(tmul(tconst(4), tsym("arg#3")), tconst(2)))
+					}
 				}
-			}
-			if b, ok := i.(*ssa.BinOp); ok && b.Op == token.MUL && desc(b) == "(arg#2*4)" {
-				mul = b
-			}
+				if b, ok := i.(*ssa.BinOp); ok && b.Op == token.MUL && desc(b) == "(arg#2*4)" {
+					mul = b
+				}
+			})
 		})
 		R.decide(rule, kProves+":bound", "three squares: the queried bound is rescaled to 4*bound - 2 (same term as the prover)", okB, "got "+got, P.Pos(fn.Pos()))
 		if mul == nil {
 			R.bad(rule, kProves+":factor", "three squares: the queried factor is rescaled to 4*factor", "no factor*4", P.Pos(fn.Pos()))
 		} else {
-			r := (&MustPass{P: P, Match: func(a Atom) bool {
+			q := (&MustPass{P: P, Match: func(a Atom) bool {
 				g, ok := parseGuard(a, nil)
 				if !ok || g.Kind != "int" || g.Subject != "arg#2" {
 					return false
@@ -626,7 +675,23 @@ func rescalingRule(P *Program, R *Report, rule string) {
 					return true
 				}
 				return g.Rel == "==" && g.BoundA.isConst()
-			}}).MustReach(fn, mul)
+			}})
+			r := mpResult{Path: "the multiplication is not reached from ProvesStatement by static calls"}
+			if h := mul.Parent(); h == fn {
+				r = q.MustReach(fn, mul)
+			} else {
+				// in a helper: guarded there, or before every call of the helper in ProvesStatement
+				bindPath(fn, h, 1, func() { r = q.MustReach(h, mul) })
+				if !r.Holds && len(callsTo(fn, h)) > 0 {
+					r.Holds = true
+					for _, c := range callsTo(fn, h) {
+						if rc := q.MustReach(fn, c); !rc.Holds {
+							r = rc
+							break
+						}
+					}
+				}
+			}
 			R.decide(rule, kProves+":no-wrap", "the multiplication factor*4 cannot wrap around (guarded)", r.Holds, r.Path, P.Pos(mul.Pos()))
 		}
 	}
